@@ -236,6 +236,30 @@ func RunCase(t *testing.T, sc *Scenario, c *Case, trace bool) (out RunOutcome) {
 	return out
 }
 
+// overRSS reports (checked every 64 cases) whether the process has outgrown
+// VERIF_MAX_RSS_MB. The race detector's own bookkeeping grows with every goroutine and
+// synchronisation object ever created and is never returned, so a race-built worker ends
+// its round early instead of growing without bound; vcheck starts the next round in a
+// fresh process.
+var rssCalls, rssLimitMB = 0, envInt("VERIF_MAX_RSS_MB", 0)
+
+func overRSS() bool {
+	if rssLimitMB <= 0 {
+		return false
+	}
+	rssCalls++
+	if rssCalls%64 != 0 {
+		return false
+	}
+	b, err := os.ReadFile("/proc/self/statm")
+	if err != nil {
+		return false
+	}
+	var size, resident int
+	fmt.Sscan(string(b), &size, &resident)
+	return resident*os.Getpagesize()>>20 > rssLimitMB
+}
+
 // bubble runs f in a synctest bubble. Under the race detector the testing package
 // fails (and stops) the test a bubble belongs to when a race was reported during
 // it; a throw-away subtest takes that failure so that the driver carries on and
@@ -476,7 +500,7 @@ func runMode(t *testing.T, property string, scenarios []*Scenario) {
 			if i%nshards != shard {
 				return true
 			}
-			if time.Now().After(until) || (maxCases > 0 && st.Run >= maxCases) {
+			if time.Now().After(until) || (maxCases > 0 && st.Run >= maxCases) || overRSS() {
 				stopped = true
 				return false
 			}
